@@ -200,7 +200,7 @@ func (f *Frame) freshRef(name string) string {
 }
 
 func (f *Frame) assume(c string) {
-	f.vc.sc.assume(implies(f.reach[f.curB], c))
+	f.vc.sc.assumeAt(implies(f.reach[f.curB], c))
 }
 
 // ---- loops ----
@@ -386,6 +386,9 @@ func (f *Frame) run(reach0 string) {
 			continue
 		}
 		f.curB = b
+		if fn == vc.top {
+			vc.sc.curBlk = b // assumptions and obligations from here on arise at this block of the function under verification
+		}
 		isHeader := f.loops[b] != nil && !(f.iter != nil && b == start)
 		var ins []condState
 		var inPreds []*ssa.BasicBlock
